@@ -1060,6 +1060,7 @@ pub fn project(name: &str, trace: &[Value]) -> Vec<Value> {
         "hostile" => hostile(trace),
         "recvlimits" => recvlimits(trace),
         "routing" => crate::proj_c09::routing(trace),
+        "tokens" => crate::proj_c14::tokens(trace),
         "master" => trace.to_vec(),
         o => panic!("unknown projection {o}"),
     }
